@@ -212,6 +212,19 @@ Theorem C10_conc_pending_served : forall (root cont cbytes : Type) (cdecode : bt
 Proof. exact @conc_pending_served. Qed.
 Print Assumptions C10_conc_pending_served.
 
+(** the code before fix-c10-3 (atomic registration, a fetch that registered the CID itself trusts the hasher blindly):
+    every interleaving of CONCURRENT fetches — [overlapping]: no fetch registers after some fetch has returned — is safe;
+    [C10_conc_trust_refuted] shows that the side condition is needed there, [C10_conc_twostep_refuted] that the atomic
+    registration is *)
+Theorem C10_conc_fetch_sound_overlap : forall (root cont cbytes : Type) (cdecode : bty -> cbytes -> option cont)
+    (verify : root -> bty -> id -> cont -> bool) (k : list Z)
+    (blk0 : nat -> entry root cont) (tr : list (cstep (cbytes := cbytes))),
+  (forall i, e_cont (blk0 i) = None) ->
+  overlapping cdecode verify true true k (cinit blk0) tr ->
+  fetch_safe verify (crun cdecode verify true true k (cinit blk0) tr).
+Proof. exact @conc_fetch_sound_overlap. Qed.
+Print Assumptions C10_conc_fetch_sound_overlap.
+
 (** seeded change C10-c (Load ... Store instead of LoadOrStore) on the code before fix-c10-3: two fetches that overlap,
     the later Store displaces the earlier entry, fetch 0 returns nil with an empty Block *)
 Theorem C10_conc_twostep_refuted :
@@ -265,3 +278,11 @@ Example C10_conc_nonvacuous :
   f_pc (c_fs b 2%nat) = FRet true /\ e_cont (f_blk (c_fs b 2%nat)) = Some false /\
   f_pc (c_fs c 0%nat) = FRet true /\ e_cont (f_blk (c_fs c 0%nat)) = Some false /\ c_owner c = None.
 Proof. exact conc_nonvacuous. Qed.
+
+Example C10_conc_overlap_nonvacuous :
+  let tr := (w_twostep ++ [SRecv 1; SNotify 1; SFinish 1])%nat in
+  let st := w_run true true (fun _ => false) tr in
+  overlapping w_dec w_ver true true w_k (cinit (fun _ => w_blk false)) tr /\
+  f_pc (c_fs st 0%nat) = FRet true /\ e_cont (f_blk (c_fs st 0%nat)) = Some false /\
+  f_pc (c_fs st 1%nat) = FRet true /\ e_cont (f_blk (c_fs st 1%nat)) = Some false /\ c_owner st = None.
+Proof. exact conc_overlap_nonvacuous. Qed.
